@@ -134,6 +134,17 @@ pub(crate) mod verif_rig_style {
         ok
     }
 
+    /// Overwrite the tab width carried by a style and by every tab-carrying literal of its template DIRECTLY (not through the
+    /// set_tab_width functions under test): used to build arbitrary pre-states.
+    pub(crate) fn style_force_tab_width(st: &mut ProgressStyle, w: usize) {
+        st.tab_width = w;
+        for p in st.template.parts.iter_mut() {
+            if let TemplatePart::Literal(TabExpandedString::WithTabs { tab_width, .. }) = p {
+                *tab_width = w;
+            }
+        }
+    }
+
     /// one write through the (private) TabRewriter that format_state wraps around custom keys
     pub(crate) fn tab_rewrite(w: &mut dyn fmt::Write, tw: usize, s: &str) -> fmt::Result {
         use std::fmt::Write as _;
